@@ -28,6 +28,9 @@ type CompareCfg struct {
 	// WaitNotifier: as "gedcom diff" does, wait until Compare has closed the
 	// Notifier before going on (the command blocks in "for range Notifier").
 	WaitNotifier bool `json:"wait_notifier,omitempty"`
+	// CLI: the case is run through the code of the gedcom diff command
+	// itself (engine_cli.go) instead of the library call.
+	CLI bool `json:"cli,omitempty"`
 }
 
 func genCompareCase(prop, tier string, r *rand.Rand) *Case {
@@ -78,6 +81,7 @@ func genCompareCase(prop, tier string, r *rand.Rand) *Case {
 		c.Compare.DiffPage = true
 		c.Compare.DiffShow = pick(r, []string{html.DiffPageShowAll, html.DiffPageShowOnlyMatches, html.DiffPageShowSubset})
 		c.Compare.DiffSort = pick(r, []string{html.DiffPageSortWrittenName, html.DiffPageSortHighestSimilarity})
+		c.Compare.CLI = r.IntN(2) == 0
 	}
 	c.Sim = GenSim(r)
 	return c
@@ -342,6 +346,9 @@ func runCompareCase(t *testing.T, c *Case) *CaseResult {
 		return cr
 	}
 	cfg := *c.Compare
+	if cfg.CLI {
+		return runDiffCLI(t, c, cr)
+	}
 	run, ok := runCompare(t, cr, c.Prop, c, cfg, c.Sim)
 	if !ok {
 		return cr // documents do not decode: not a case for this engine
